@@ -31,11 +31,33 @@ Inductive lop : Type :=
 (* what the real keeper did: 0 ok | 1 error | 3 panic, and the balance changes of the watched accounts *)
 Definition lobs : Type := (Z * list ((string * string) * Z))%type.
 
+(* configuration a message of a transaction attempts to write (gov MsgSetExecutionFee,
+   MsgSetNetworkProperties, tokens MsgUpsertTokenInfo) *)
+Inductive cfgwrite : Type :=
+| WExec (ty : string) (e f : Z)
+| WFees (min max : Z) (foreign : bool)
+| WToken (d : string) (rate : Z) (enabled : bool).
+Definition apply_write (c : fcfg) (w : cfgwrite) : fcfg :=
+  match w with
+  | WExec ty e f => mkCfg (c_filt c) (c_tokens c) (c_foreign c) (c_min_fee c) (c_max_fee c) ((ty, (e, f)) :: c_exec c) (c_custody c) (c_min_reward c)
+  | WFees mn mx fo => mkCfg (c_filt c) (c_tokens c) fo mn mx (c_exec c) (c_custody c) (c_min_reward c)
+  | WToken d r en => mkCfg (c_filt c) (mkToken d r en :: c_tokens c) (c_foreign c) (c_min_fee c) (c_max_fee c) (c_exec c) (c_custody c) (c_min_reward c)
+  end.
+(* one step of a failed-transaction-trace history: mode 0 = DeliverTx, 1 = CheckTx only,
+   2 = Simulate only; the writes its messages attempt; the transaction; what was observed *)
+Definition tstep : Type := (Z * list cfgwrite * tx * tx_obs)%type.
+(* GHOST CONFIGURATION: only a transaction DELIVERED AS A WHOLE (class 0) changes it *)
+Definition ghost_cfg (c : fcfg) (st : tstep) : fcfg :=
+  let '(mode, ws, _, o) := st in
+  if ((mode =? 0) && (o_class o =? 0))%bool then fold_left apply_write ws c else c.
+
 Inductive c09_case : Type :=
 | CBlock (c : fcfg) (accts : list (string * (Z * bool))) (bals : list ((string * string) * Z))
          (hists : list (string * coins)) (watch dens : list string)
          (txs : list (tx * tx_obs)) (eo : end_obs)
 | CRefund (ts : list token) (hist amt coll : coins) (class : Z) (paid : coins) (hist_after : coins)
+| CTrace (c : fcfg) (accts : list (string * (Z * bool))) (bals : list ((string * string) * Z))
+         (watch dens : list string) (steps : list tstep)
 | CLedger (c : fcfg) (bals : list ((string * string) * Z)) (watch dens : list string)
           (ops : list (lop * lobs)) (hists_after : list (string * coins)).
 
@@ -105,6 +127,20 @@ Fixpoint ledger_match (c : fcfg) (ws ds : list string) (s : st) (ops : list (lop
       end
   end.
 
+(* the model priced against the ghost configuration; CheckTx / Simulate steps do not touch the
+   deliver state and are not compared *)
+Fixpoint trace_match (c : fcfg) (ws ds : list string) (s : st) (steps : list tstep) : bool :=
+  match steps with
+  | [] => true
+  | ((mode, wr, t, o) as stp) :: r =>
+      if mode =? 0 then
+        match txs_match c ws ds s [(t, o)] with
+        | Some s' => trace_match (ghost_cfg c stp) ws ds s' r
+        | None => false
+        end
+      else trace_match c ws ds s r
+  end.
+
 Definition case_matches (k : c09_case) : bool :=
   match k with
   | CBlock c accts bals hists ws ds txs eo =>
@@ -127,6 +163,7 @@ Definition case_matches (k : c09_case) : bool :=
       | Err _ => class =? 1
       | Panic _ => class =? 3
       end
+  | CTrace c accts bals ws ds steps => trace_match c ws ds (init_st accts bals []) steps
   | CLedger c bals ws ds ops hists_after =>
       match ledger_match c ws ds (mkSt bals [] [] [] []) ops with
       | Some s => hists_match s ws hists_after
@@ -271,6 +308,19 @@ Fixpoint ledger_clauses (ws ds : list string) (paid recv : ghost) (ops : list (l
             | _ => "refund_le_paid:history:refund-exceeds-cumulative-payments" end]%string
   end.
 
+(* every delivered transaction of a trace history is judged against the ghost configuration:
+   configuration attempted by transactions that failed, or were only checked / simulated, must
+   have left no trace *)
+Fixpoint trace_clauses (c : fcfg) (ws ds : list string) (prev : list (string * (Z * bool))) (steps : list tstep) : list string :=
+  match steps with
+  | [] => []
+  | ((mode, wr, t, o) as stp) :: r =>
+      if mode =? 0 then
+        map (fun cl => ("after-failed-or-unexecuted-configuration-write:" ++ cl)%string) (tx_clauses c ws ds prev t o)
+        ++ trace_clauses (ghost_cfg c stp) ws ds (upd_accts prev (o_accts o)) r
+      else trace_clauses c ws ds prev r
+  end.
+
 Definition case_clauses (k : c09_case) : list string :=
   match k with
   | CBlock c accts bals hists ws ds txs eo =>
@@ -282,6 +332,7 @@ Definition case_clauses (k : c09_case) : list string :=
                                                            | Some t => snd x * t_rate t | None => 0 end) cs) in
         flag (forallb (fun d => amt_of paid d <=? amt_of hist d) (denoms paid) && (value paid <=? value amt))%bool "refund_le_paid:payback"
       else []
+  | CTrace c accts bals ws ds steps => trace_clauses c ws ds accts steps
   | CLedger c bals ws ds ops _ => ledger_clauses ws ds [] [] ops 0
   end.
 
